@@ -112,7 +112,7 @@ fn main() {
             Prop {
                 id: "C05",
                 scenarios: scenarios!(c05; tomb::TriSetGen: 1, tomb::TriMapGen: 1),
-                quick_runs: 100_000,
+                quick_runs: 80_000,
                 thorough_runs: 4_000_000,
                 rule: "three replica stacks (HashSet, RoaringTombstoneSet, FstTombstoneSet<String> tombstone back ends; u64 keys above 2^32 with colliding low halves, String keys incl. the empty string, prefixes and non-ASCII) execute the identical schedule in lock-step next to a per-replica model (inserted_seen, tomb_seen, value items seen per key). Local operations: insert delta (key live), delete delta (key in the tombstone set), option/vec deltas mixing both on disjoint keys; state-push gossip (own representation or converted to the hash-backed representation by LatticeFrom) under drop/duplicate/reorder/partition/crash-restart/slow replica; n fault-free rounds. Oracle after every event that touched a replica. Distinct = distinct hash of the realised decision trace (+ scenario); non-trivial = at least one update issued AND one message delivered AND one fault fired.",
                 time_unit: "events",
